@@ -6,6 +6,7 @@ import AdaVerif.Lemmas.ParseSpecial
 import AdaVerif.Lemmas.ParseBase
 import AdaVerif.Lemmas.ParseAgg
 import AdaVerif.Lemmas.ParseAggBase
+import AdaVerif.Lemmas.ParseValid
 import AdaVerif.Props.C10
 /-
 C01 — Parsing conforms to the WHATWG URL Standard for every input and base.
@@ -117,6 +118,37 @@ theorem aggregator_parser_with_base_partial (idna : Idna) (b : Url) (hinv : RecI
   rw [PAB.machineBA_eq_full idna (UR.recOf b) (PAB.baseRec_of b hinv hseg hch) input hid,
     PB.machineB_spec idna b ⟨hinv, hseg⟩ input hid hclean]
   cases parse idna input (some b) <;> rfl
+
+/-- **the API as it is used: parse a base, then parse against it** - both types.  Whatever `ada::parse` hands out for the base
+    text is a base object that meets every assumption of the with-base theorems (C19's `parse_inv`, `parse_noSlash`,
+    `parse_ch`), so the chain needs nothing but the two bracket side conditions and the IDNA parameter:
+    `ada::url` - the second parse answers `Spec.parse input (Spec.parse base)`; `ada::url_aggregator` - its buffer and
+    offsets are the layout of that record. -/
+theorem parser_chain_partial (idna : Idna) (bi input : Bytes) (hid : ∀ d, HP.IdnaAt idna d)
+    (hcb : HS.bracketClean (ParseSpecial.schemeSpecial bi) false (ParseSpecial.hostStart bi) = true)
+    (hci : ∀ b, parse idna bi none = some b →
+      HS.bracketClean (ParseSpecial.hostStartB (UR.recOf b) input).1 false (ParseSpecial.hostStartB (UR.recOf b) input).2 = true) :
+    (match ParseSpecial.parseNoBase idna bi with
+      | .invalid => parse idna bi none = none
+      | .ok rb => ∃ b, parse idna bi none = some b ∧ rb = UR.recOf b ∧
+          ParseSpecial.parseWithBase idna rb input = PS.outOf (parse idna input (some b))) ∧
+    (match ParseAgg.parseNoBaseA idna bi with
+      | none => parse idna bi none = none
+      | some ab => ∃ b, parse idna bi none = some b ∧ ab = Agg.layout (UrlRec.toL (UR.recOf b)) ∧
+          ParseAgg.machineBA idna ab input = some ((parse idna input (some b)).map (fun u => Agg.layout (UrlRec.toL (UR.recOf u))))) := by
+  have h1 := PS.parseNoBase_spec idna bi hid hcb
+  have h2 := PA.parseNoBaseA_eq idna bi hid
+  rw [h1] at h2
+  rw [h1, h2]
+  cases hp : parse idna bi none with
+  | none => exact ⟨rfl, rfl⟩
+  | some b =>
+    have hinv := parse_inv idna bi none b (by intro x hx; cases hx) hp
+    have hseg := PV.parse_noSlash idna bi b hp
+    have hch := PAB.parse_ch idna bi b hp
+    refine ⟨⟨b, rfl, rfl, ?_⟩, ⟨b, rfl, rfl, ?_⟩⟩
+    · exact PB.machineB_spec idna b ⟨hinv, hseg⟩ input hid (hci b hp)
+    · exact aggregator_parser_with_base_partial idna b hinv hseg hch input hid (hci b hp)
 
 theorem bracket_condition_plain_base (b : UrlRec.Rec) (input : Bytes) (h : (0x5B : UInt8) ∉ input) :
     HS.bracketClean (ParseSpecial.hostStartB b input).1 false (ParseSpecial.hostStartB b input).2 = true :=
